@@ -1,6 +1,12 @@
-import CentrifugeVerif.Model.Interest
+import CentrifugeVerif.Proofs.Interest
 /-!
-# C26 — Broker subscription tracks local interest (first obligation; extended as proofs land)
+# C26 — Broker subscription tracks local interest
+
+Property theorems over `Model/Interest.lean` (helpers and the invariant are in `Proofs/Interest.lean`).
+`Reach K s`: `s` is reachable from the initial state of a channel of kind `K` by any finite sequence
+of labels (hub add under the lock, broker Subscribe returning ok or failing, remove, a pending job
+starting, broker Unsubscribe returning ok or failing, end of the cool-down), in any interleaving that
+the lock permits, with any pattern of broker failures.
 -/
 namespace CentrifugeVerif.Interest
 
@@ -13,5 +19,155 @@ theorem job_unsub_only_when_empty (s s' : Ch) (w : Bool)
     · assumption
     · cases h; simp_all
   · cases h
+
+/-- **interest ⇒ subscribed**, at lock-release granularity: in every reachable state in which the
+channel's sub lock is free, local subscribers imply that the serving broker is subscribed. -/
+theorem interest_implies_subscribed {K : Bool} {s : Ch} (h : Reach K s)
+    (hfree : s.lock = .free) (hsubs : s.subs ≠ []) : served s K = true := by
+  have := (reach_inv h).lock
+  simp only [lockOk, hfree] at this
+  exact this hsubs
+
+/-- the same for *every* reachable state: the only states with local subscribers and no broker
+subscription are those in which `addSubscription` holds the lock, has registered exactly its own
+(first) subscriber and is inside `broker.Subscribe`. -/
+theorem interest_implies_subscribed_or_subscribing {K : Bool} {s : Ch} (h : Reach K s)
+    (hsubs : s.subs ≠ []) :
+    served s K = true ∨ ∃ c g, s.lock = .adder c g K ∧ s.subs = [(c, g)] := by
+  have hl := (reach_inv h).lock
+  unfold lockOk at hl
+  split at hl
+  · exact Or.inl (hl hsubs)
+  · rename_i c g m hlock
+    exact Or.inr ⟨c, g, by rw [hlock, hl.1], hl.2⟩
+  · exact absurd hl.1 hsubs
+  · exact absurd hl.1 hsubs
+
+/-- publications are not lost to a racing broker unsubscribe: whenever a job is inside
+`broker.Unsubscribe` (or cooling down after a failed one) the channel has no local subscriber, and
+none can be added before the job releases the lock (`addBegin` is not enabled). -/
+theorem unsubscribe_excludes_interest {K : Bool} {s : Ch} (h : Reach K s) (w : Bool)
+    (hl : s.lock = .job w ∨ s.lock = .cool w) :
+    s.subs = [] ∧ ∀ c g m, next s (.addBegin c g m) = none := by
+  have hlk := (reach_inv h).lock
+  rcases hl with hl | hl <;> simp only [lockOk, hl] at hlk <;>
+    exact ⟨hlk.1, fun c g m => by simp [next, hl]⟩
+
+/-- **settled ⇒ exact**: no pending job and nothing in flight ⇒ the serving broker is subscribed
+exactly when there are local subscribers, and the other broker is not subscribed. -/
+theorem settled_exact {K : Bool} {s : Ch} (h : Reach K s) (hjobs : s.jobs = []) (hfree : s.lock = .free) :
+    (served s K = true ↔ s.subs ≠ []) ∧ served s (!K) = false := by
+  have hi := reach_inv h
+  refine ⟨⟨fun hs hempty => ?_, fun hne => interest_implies_subscribed h hfree hne⟩, hi.other⟩
+  have := hi.covered hs (Or.inl hempty)
+  simp [hjobs] at this
+
+/-- a broker subscription without local subscribers is always covered by a pending job of the
+channel's kind (this is what the failed-Subscribe rollback and the "empty" return of `removeSub`
+maintain), so it cannot be forgotten. -/
+theorem stale_subscription_has_job {K : Bool} {s : Ch} (h : Reach K s)
+    (hs : served s K = true) (hempty : s.subs = []) : K ∈ s.jobs :=
+  (reach_inv h).covered hs (Or.inl hempty)
+
+/-- the hypotheses of the theorems are satisfiable by a non-trivial run: subscribe (first, broker ok),
+second subscriber, both leave, a job starts and the broker refuses, cool-down ends, a subscriber
+returns, the job finds it and gives up silently. -/
+example :
+    ∃ s, run init [.addBegin 1 1 false, .addBroker true, .addBegin 2 1 false, .remove 1 1, .remove 2 1,
+                   .jobStart false, .jobBroker false, .coolEnd, .addBegin 3 1 false, .addBroker true,
+                   .jobStart false] = some s ∧
+      s.jobs = [] ∧ s.lock = .free ∧ s.subs ≠ [] ∧ served s false = true := by
+  refine ⟨_, rfl, ?_⟩
+  decide
+
+/-- Why the job's re-check of `NumSubscribers` matters: a job that skipped it (lock = `job` although
+a subscriber is registered — not reachable, by `unsubscribe_excludes_interest`) would end in a state
+with a local subscriber, a free lock and no broker subscription. -/
+example :
+    let bad : Ch := { subs := [(3, 1)], hubMap := false, subStream := true, subMap := false,
+                      jobs := [false], lock := .job false }
+    ∃ s, next bad (.jobBroker true) = some s ∧ s.lock = .free ∧ s.subs ≠ [] ∧ served s false = false := by
+  refine ⟨_, rfl, ?_⟩
+  decide
+
+/-! ### "once deferred work drains" — the fairness-free half
+
+Liveness proper ("every job eventually runs") needs scheduler fairness and a broker that eventually
+accepts the unsubscribe; both are assumptions.  What is proved: from every reachable state with a
+free lock the pending jobs *can* all be completed (each needs at most two labels and no other
+label), without touching the hub, and the state reached is settled — so `settled_exact` applies. -/
+
+theorem eraseJob_length {w : Bool} {l : List Bool} (h : w ∈ l) : (eraseJob w l).length + 1 = l.length := by
+  induction l with
+  | nil => cases h
+  | cons x xs ih =>
+    simp only [eraseJob]
+    split
+    · simp
+    · rename_i hne
+      rcases List.mem_cons.mp h with h | h
+      · exact absurd h.symm hne
+      · simp [ih h]
+
+theorem drain_partial (n : Nat) : ∀ {K : Bool} {s : Ch}, Reach K s → s.lock = .free → s.jobs.length = n →
+    ∃ ls s', run s ls = some s' ∧ Reach K s' ∧ s'.jobs = [] ∧ s'.lock = .free ∧ s'.subs = s.subs ∧
+      ∀ l ∈ ls, (∃ w, l = .jobStart w) ∨ l = .jobBroker true := by
+  induction n with
+  | zero =>
+    intro K s h hfree hlen
+    exact ⟨[], s, rfl, h, List.length_eq_zero_iff.mp hlen, hfree, rfl, by simp⟩
+  | succ n ih =>
+    intro K s h hfree hlen
+    match hj : s.jobs with
+    | [] => simp [hj] at hlen
+    | w :: rest =>
+      have hw : w ∈ s.jobs := by simp [hj]
+      by_cases hempty : s.subs = []
+      · -- the job takes the lock, calls Unsubscribe, which succeeds
+        let s1 : Ch := { s with lock := .job w }
+        have h1 : next s (.jobStart w) = some s1 := by simp [next, hfree, hw, hempty, s1]
+        let s2 : Ch := { setSubscribed s1 w false with jobs := eraseJob w s1.jobs, lock := .free }
+        have h2 : next s1 (.jobBroker true) = some s2 := by simp [next, s1, s2]
+        have r2 : Reach K s2 := Reach.step (Reach.step h (by simp [WF]) h1) (by simp [WF]) h2
+        have hlen2 : s2.jobs.length = n := by
+          have := eraseJob_length hw
+          simp only [s2, s1]; omega
+        have hsubs2 : s2.subs = s.subs := by
+          simp only [s2]; exact (setSubscribed_fields s1 w false).1
+        obtain ⟨ls, s', hr, hreach, hjobs, hl, hs, hall⟩ := ih r2 rfl hlen2
+        refine ⟨.jobStart w :: .jobBroker true :: ls, s', ?_, hreach, hjobs, hl, hs.trans hsubs2, ?_⟩
+        · simp [run, h1, h2, hr]
+        · intro l hl'
+          simp only [List.mem_cons] at hl'
+          rcases hl' with rfl | rfl | hl'
+          · exact Or.inl ⟨w, rfl⟩
+          · exact Or.inr rfl
+          · exact hall l hl'
+      · -- subscribers present: the job returns nil without touching the broker
+        let s1 : Ch := { s with jobs := eraseJob w s.jobs }
+        have h1 : next s (.jobStart w) = some s1 := by simp [next, hfree, hw, hempty, s1]
+        have r1 : Reach K s1 := Reach.step h (by simp [WF]) h1
+        have hlen1 : s1.jobs.length = n := by
+          have := eraseJob_length hw
+          simp only [s1]; omega
+        obtain ⟨ls, s', hr, hreach, hjobs, hl, hs, hall⟩ := ih r1 hfree hlen1
+        refine ⟨.jobStart w :: ls, s', ?_, hreach, hjobs, hl, hs, ?_⟩
+        · simp [run, h1, hr]
+        · intro l hl'
+          simp only [List.mem_cons] at hl'
+          rcases hl' with rfl | hl'
+          · exact Or.inl ⟨w, rfl⟩
+          · exact hall l hl'
+
+/-- (partial: existence of a draining run, not its inevitability) from every reachable state with a
+free lock, completing the pending jobs — with broker unsubscribes succeeding and no subscribe /
+unsubscribe of clients in between — reaches a settled state with the same local subscribers, in which
+the serving broker is subscribed iff there are local subscribers. -/
+theorem drains_to_exact_partial {K : Bool} {s : Ch} (h : Reach K s) (hfree : s.lock = .free) :
+    ∃ ls s', run s ls = some s' ∧ s'.jobs = [] ∧ s'.lock = .free ∧ s'.subs = s.subs ∧
+      (served s' K = true ↔ s.subs ≠ []) ∧ served s' (!K) = false := by
+  obtain ⟨ls, s', hr, hreach, hjobs, hl, hs, _⟩ := drain_partial s.jobs.length h hfree rfl
+  have := settled_exact hreach hjobs hl
+  exact ⟨ls, s', hr, hjobs, hl, hs, by rw [← hs]; exact this.1, this.2⟩
 
 end CentrifugeVerif.Interest
